@@ -330,6 +330,21 @@ func c06special(c *core.Ctx) {
 			"compose.yaml": "include:\n  - ./inc.yaml\nservices:\n" + svc("m", "m") + "volumes:\n  v: {labels: {a: \"1\"}}\n", "inc.yaml": "services:\n" + svc("x", "x") + "volumes:\n  v: {labels: {a: \"2\"}}\n"}},
 		{name: "conflict-between-includes", wantErr: true, files: map[string]string{
 			"compose.yaml": "include:\n  - ./i1.yaml\n  - ./i2.yaml\nservices:\n" + svc("m", "m"), "i1.yaml": "services:\n" + svc("x", "one"), "i2.yaml": "services:\n" + svc("x", "two")}},
+		{name: "conflict-bare-volume-in-main", wantErr: true, files: map[string]string{
+			"compose.yaml": "include:\n  - ./inc.yaml\nservices:\n" + svc("m", "m") + "volumes:\n  data:\n", "inc.yaml": "services:\n" + svc("x", "x") + "volumes:\n  data: {driver: nfs}\n"}},
+		{name: "conflict-bare-volume-in-include", wantErr: true, files: map[string]string{
+			"compose.yaml": "include:\n  - ./inc.yaml\nservices:\n" + svc("m", "m") + "volumes:\n  data: {driver: nfs}\n", "inc.yaml": "services:\n" + svc("x", "x") + "volumes:\n  data:\n"}},
+		{name: "conflict-bare-network-between-includes", wantErr: true, files: map[string]string{
+			"compose.yaml": "include:\n  - ./i1.yaml\n  - ./i2.yaml\nservices:\n" + svc("m", "m"), "i1.yaml": "services:\n" + svc("one", "one") + "networks:\n  front:\n", "i2.yaml": "services:\n" + svc("two", "two") + "networks:\n  front: {driver: overlay}\n"}},
+		{name: "conflict-network-then-bare-between-includes", wantErr: true, files: map[string]string{
+			"compose.yaml": "include:\n  - ./i1.yaml\n  - ./i2.yaml\nservices:\n" + svc("m", "m"), "i1.yaml": "services:\n" + svc("one", "one") + "networks:\n  front: {driver: overlay}\n", "i2.yaml": "services:\n" + svc("two", "two") + "networks:\n  front:\n"}},
+		{name: "identical-bare-on-both-sides", files: map[string]string{
+			"compose.yaml": "include:\n  - ./inc.yaml\nservices:\n" + svc("m", "m") + "volumes:\n  data:\nnetworks:\n  front:\n", "inc.yaml": "services:\n" + svc("x", "x") + "volumes:\n  data:\nnetworks:\n  front:\n"},
+			check: func(im map[string]string) string { return "" }},
+		{name: "conflict-secret", wantErr: true, files: map[string]string{
+			"compose.yaml": "include:\n  - ./inc.yaml\nservices:\n" + svc("m", "m") + "secrets:\n  s: {file: ./a}\n", "inc.yaml": "services:\n" + svc("x", "x") + "secrets:\n  s: {file: ./b}\n"}},
+		{name: "conflict-config", wantErr: true, files: map[string]string{
+			"compose.yaml": "include:\n  - ./inc.yaml\nservices:\n" + svc("m", "m") + "configs:\n  c: {content: a}\n", "inc.yaml": "services:\n" + svc("x", "x") + "configs:\n  c: {content: b}\n"}},
 		{name: "identical-through-two-routes", files: map[string]string{
 			"compose.yaml": "include:\n  - ./i1.yaml\n  - ./i2.yaml\nservices:\n" + svc("m", "m"),
 			"i1.yaml": "include:\n  - ./shared.yaml\nservices:\n" + svc("one", "one"), "i2.yaml": "include:\n  - ./shared.yaml\nservices:\n" + svc("two", "two"),
